@@ -89,6 +89,15 @@ def build(x, top, case, logfile):
         pre = pre[:-1]
     for i in pre:
         crop.grow(i)
+    if case.get("orphan_tmp"):
+        # a grower was killed while saving one of the still missing batches:
+        # its temporary file stays behind (it is not a result)
+        miss_ = [i for i in range(1, B + 1) if i not in pre]
+        if miss_:
+            i_ = miss_[case["orphan_tmp"] % len(miss_)]
+            with open(crops.result_path(root, cname(case), i_) +
+                      ".0123456789abcdef0123456789abcdef.tmp", "wb") as f_:
+                f_.write(b"\x80\x04half a pickle")
     if logfile and os.path.exists(logfile):
         os.remove(logfile)
     batch_vals = {i: [models.plain(kw["a"]) for kw in
@@ -453,6 +462,9 @@ def strategy(draw, executed=False):
     else:
         case["batch_ids"] = None
     case["parent_style"] = draw(st.sampled_from(["abs", "abs", "rel", "cwd"]))
+    case["orphan_tmp"] = draw(st.sampled_from([0, 0, 1, 2]))
+    if draw(st.sampled_from([False, False, True])):
+        case["crop_name"] = "simulate_ground_state_energy_v2"
     if executed:
         if "num_workers" in case["opts"] and draw(st.booleans()):
             case["opts"].pop("num_workers")
